@@ -1410,6 +1410,17 @@ class Mailbox:
         #       sequences back in after the pack.
         #
         async with self.mh_sequences_lock:
+            # NOTE: Only pack a folder that holds exactly the messages we know
+            #       about. A message delivered since the last resync looked at
+            #       the folder (the resync trusts the folder's mtime, which
+            #       has a one second resolution) would get a msg key here but
+            #       no uid, and the next resync, finding lists of different
+            #       lengths, would hand every message a new uid. Leave the
+            #       folder alone: the resync that finds the new message comes
+            #       first, the pack after it.
+            #
+            if [int(x) for x in self.mailbox.iterkeys()] != self.msg_keys:
+                return False
             self.set_sequences_in_folder(self.sequences)
             self.mailbox.pack()
             self.msg_keys = [int(x) for x in self.mailbox.iterkeys()]
